@@ -104,7 +104,8 @@ def remembered_iface(body, du, h):
 
 def r2_upgrade_tail(cx):
     """listen worker: after an Ok from handle(), the loop may only be left (or block for more input) with the tail abandoned when it is empty or no upgrade just happened"""
-    body = cx.mir.one("varlink", "server::listen::{closure#1}")
+    from .roles import listen_worker
+    body = listen_worker(cx)
     cx.saw(body)
     cfg = Cfg(body); du = DefUse(body)
     from vlib.cfg import enumerate_paths
